@@ -313,7 +313,12 @@ class DAGRunConcurrentManager(DAGRunManagerLike):
         Execute node and save metadata
         """
 
-        if self._node_storage.exists_processed_node(node_id):
+        # While a recurrent subgraph re-iterates, the marks of its nodes are hidden until the subgraph itself executes
+        # them again (or asks for the default value). Any other subgraph that requests such a node meanwhile must
+        # wait for that execution instead of starting its own.
+        is_hidden_mark_visible = not dag.is_recurrent and not force_default
+
+        if self._node_storage.exists_processed_node(node_id, with_hidden=is_hidden_mark_visible):
             logger.debug('Node %s has been executed. Stop new execution', node_id)
 
             await self._lock_manager.wait_for_event(node_id)
